@@ -4,6 +4,15 @@ package checks
 
 import (
 	"math/big"
+
+	banktypes "github.com/cosmos/cosmos-sdk/x/bank/types"
+	"github.com/ethereum/go-ethereum/accounts/abi"
+
+	"github.com/haqq-network/haqq/contracts"
 )
 
 type bigInt = big.Int
+
+type bankMsgSend = banktypes.MsgSend
+
+func erc20ABI() abi.ABI { return contracts.ERC20MinterBurnerDecimalsContract.ABI }
